@@ -1,10 +1,15 @@
 // c12: observations for "comment rules report the matched span and its named groups precisely; first accepting
 // comment rule wins".
-// A rules file with MatchComment rules (named / unnamed / optional / nested / alternative groups, no groups, filters,
-// At(), Suggest(), two alternatives) is run over a generated file whose comments sit at offsets known by construction
-// (line and block comments, multi-line, multi-byte prefixes, adjacent comments, CRLF inside block comments, a comment
-// at EOF). For every comment: the submatch indices regexp returns on comment.Text (the model's regexp oracle) and on
-// the comment's SOURCE bytes (the property's oracle), the observed report(s) and the expected report.
+// A rules file with MatchComment rules is run over THREE generated files that share one token.FileSet (so the second and
+// third file have a base > 1) and one RunnerState; every comment sits at an offset known by construction.
+// Rule classes: named groups in every spelling Go accepts (`(?P<n>`, `(?<n>`, both in one pattern, nested, optional),
+// unnamed groups in front, non-participating alternatives, no groups (fast path), multi-byte, (?s) multi-line,
+// Where() expressions (Text == / != literal, Text == Text of another group, Text.Matches, `$$`, !, &&, ||), At(),
+// Suggest() (also one that renders to the empty string), two alternatives, and FAMILIES of rules that all match the same
+// comments, bind the same group names to different pieces of the comment and mostly reject through their filters
+// (what an earlier, rejected rule matched must never reach a later rule).
+// For every comment: the submatch indices regexp returns on comment.Text (the model's regexp oracle) and on the
+// comment's SOURCE bytes (the property's oracle), the observed report(s) and the expected report.
 package main
 
 import (
@@ -12,8 +17,13 @@ import (
 	"flag"
 	"fmt"
 	"go/ast"
+	"go/importer"
+	"go/parser"
+	"go/token"
+	"go/types"
 	"math/rand"
 	"os"
+	"path/filepath"
 	"regexp"
 	"strings"
 
@@ -22,16 +32,84 @@ import (
 	"github.com/quasilyte/go-ruleguard/ruleguard"
 )
 
+// flt is a Where() expression over comment captures.
+type flt struct {
+	Op  string `json:"op"` // eq ne eqvar nevar matches not and or
+	Var string `json:"var,omitempty"`
+	Lit string `json:"lit,omitempty"` // literal / second variable / pattern
+	A   *flt   `json:"a,omitempty"`
+	B   *flt   `json:"b,omitempty"`
+}
+
+func (f *flt) dsl() string {
+	switch f.Op {
+	case "eq":
+		return fmt.Sprintf("m[%q].Text == %q", f.Var, f.Lit)
+	case "ne":
+		return fmt.Sprintf("m[%q].Text != %q", f.Var, f.Lit)
+	case "eqvar":
+		return fmt.Sprintf("m[%q].Text == m[%q].Text", f.Var, f.Lit)
+	case "nevar":
+		return fmt.Sprintf("m[%q].Text != m[%q].Text", f.Var, f.Lit)
+	case "matches":
+		return fmt.Sprintf("m[%q].Text.Matches(`%s`)", f.Var, f.Lit)
+	case "not":
+		return "!(" + f.A.dsl() + ")"
+	case "and":
+		return "(" + f.A.dsl() + " && " + f.B.dsl() + ")"
+	case "or":
+		return "(" + f.A.dsl() + " || " + f.B.dsl() + ")"
+	}
+	panic("bad filter op " + f.Op)
+}
+
+// eval: the property's reading of the filter -- every variable stands for the text of its group ("" when the group did
+// not participate), `$$` for the matched text; Matches is Go's regexp.
+func (f *flt) eval(text func(string) []byte) bool {
+	switch f.Op {
+	case "eq":
+		return string(text(f.Var)) == f.Lit
+	case "ne":
+		return string(text(f.Var)) != f.Lit
+	case "eqvar":
+		return string(text(f.Var)) == string(text(f.Lit))
+	case "nevar":
+		return string(text(f.Var)) != string(text(f.Lit))
+	case "matches":
+		return regexp.MustCompile(f.Lit).Match(text(f.Var))
+	case "not":
+		return !f.A.eval(text)
+	case "and":
+		return f.A.eval(text) && f.B.eval(text)
+	case "or":
+		return f.A.eval(text) || f.B.eval(text)
+	}
+	panic("bad filter op " + f.Op)
+}
+
+// matchesNodes lists the (variable, pattern) pairs of the Matches leaves.
+func (f *flt) matchesNodes(acc *[][2]string) {
+	if f == nil {
+		return
+	}
+	if f.Op == "matches" {
+		*acc = append(*acc, [2]string{f.Var, f.Lit})
+	}
+	f.A.matchesNodes(acc)
+	f.B.matchesNodes(acc)
+}
+
 type ruleSpec struct {
-	Pat    string     `json:"pat"`
-	Names  []string   `json:"names"`  // regexp.SubexpNames()
-	Groups bool       `json:"groups"` // regexpHasCaptureGroups (hook)
-	Filter *[2]string `json:"filter"` // Where(m[name].Text == lit)
-	Msg    string     `json:"msg"`
-	Sugg   string     `json:"sugg"`
-	At     string     `json:"at"`
-	Line   int        `json:"line"`
-	Group  string     `json:"group"`
+	Pat    string   `json:"pat"`
+	Names  []string `json:"names"`  // regexp.SubexpNames()
+	Groups bool     `json:"groups"` // regexpHasCaptureGroups (hook)
+	NumSub int      `json:"numsub"` // regexp.NumSubexp()
+	Filter *flt     `json:"filter"`
+	Msg    string   `json:"msg"`
+	Sugg   string   `json:"sugg"`
+	At     string   `json:"at"`
+	Line   int      `json:"line"`
+	Group  string   `json:"group"`
 	re     *regexp.Regexp
 }
 
@@ -48,18 +126,26 @@ type report struct {
 	Rule     int    `json:"rule"` // index into the flattened rule list (expected side only)
 }
 
+type matchVerdict struct {
+	Pat  []byte `json:"pat"`
+	Text []byte `json:"text"`
+	Ok   bool   `json:"ok"`
+}
+
 type commentObs struct {
-	K      string   `json:"k"`
-	L      int      `json:"L"`
-	Off    int      `json:"off"`
-	Src    []byte   `json:"src"`  // the comment's bytes in the file
-	Text   []byte   `json:"text"` // ast.Comment.Text
-	HasCR  bool     `json:"has_cr"`
-	Idx    [][]int  `json:"idx"`     // per rule: FindStringSubmatchIndex(comment.Text) or null
-	IdxSrc [][]int  `json:"idx_src"` // per rule: FindSubmatchIndex(source bytes) or null
-	Obs    []report `json:"obs"`
-	Want   *report  `json:"want"`
-	Panic  string   `json:"panic,omitempty"`
+	K      string         `json:"k"`
+	L      int            `json:"L"`
+	File   int            `json:"file"`
+	Off    int            `json:"off"`
+	Src    []byte         `json:"src"`  // the comment's bytes in the file
+	Text   []byte         `json:"text"` // ast.Comment.Text
+	HasCR  bool           `json:"has_cr"`
+	Idx    [][]int        `json:"idx"`     // per rule: FindStringSubmatchIndex(comment.Text) or null
+	IdxSrc [][]int        `json:"idx_src"` // per rule: FindSubmatchIndex(source bytes) or null
+	MT     []matchVerdict `json:"mt"`      // regexp verdicts a Text.Matches filter may need on this comment
+	Obs    []report       `json:"obs"`
+	Want   *report        `json:"want"`
+	Panic  string         `json:"panic,omitempty"`
 }
 
 func truncSpec(s []byte, l int) []byte {
@@ -128,15 +214,26 @@ func interpSpec(msg string, caps []capText, whole []byte, trunc bool, l int) []b
 
 type ruleDef struct {
 	pats   []string
-	filter *[2]string
+	filter *flt
 	msg    string
 	sugg   string
 	at     string
 }
 
+func eq(v, lit string) *flt      { return &flt{Op: "eq", Var: v, Lit: lit} }
+func ne(v, lit string) *flt      { return &flt{Op: "ne", Var: v, Lit: lit} }
+func eqvar(v, w string) *flt     { return &flt{Op: "eqvar", Var: v, Lit: w} }
+func nevar(v, w string) *flt     { return &flt{Op: "nevar", Var: v, Lit: w} }
+func matches(v, pat string) *flt { return &flt{Op: "matches", Var: v, Lit: pat} }
+func not(a *flt) *flt            { return &flt{Op: "not", A: a} }
+func and(a, b *flt) *flt         { return &flt{Op: "and", A: a, B: b} }
+func or(a, b *flt) *flt          { return &flt{Op: "or", A: a, B: b} }
+
+const tok = `[^\s-]+`
+
 var fixedRules = []ruleDef{
 	{pats: []string{`TODO\((?P<who>\w+)\):\s*(?P<what>.*)`}, msg: "todo $who: $what [$$]"},
-	{pats: []string{`(?P<key>\w+)=(?P<val>\w*)`}, filter: &[2]string{"key", "mode"}, msg: "kv $key=$val", sugg: "$val=$key"},
+	{pats: []string{`(?P<key>\w+)=(?P<val>\w*)`}, filter: eq("key", "mode"), msg: "kv $key=$val", sugg: "$val=$key"},
 	{pats: []string{`(\w+)=(?P<val>\w*)`}, msg: "anykv $val of $$ ($nope $)", at: "val"},
 	{pats: []string{`(?P<a>foo)|(?P<b>bar)`}, msg: "alt a=[$a] b=[$b] $$", sugg: "<$a$b>"},
 	{pats: []string{`FIXME`}, msg: "fixme $$", sugg: "TODO"},
@@ -147,11 +244,139 @@ var fixedRules = []ruleDef{
 	{pats: []string{`beta\s+(?P<w>\w+)`}, msg: "w=$w", at: "w", sugg: "W"},
 	{pats: []string{`(?s)BEGIN(?P<body>.*)END`}, msg: "body=$body"},
 	{pats: []string{`alt1-(?P<v>\d)`, `alt2-(?P<v>\d)(?P<rest>\w*)`}, msg: "v=$v"},
-	{pats: []string{`(?P<first>\w+) (?P<second>\w+)$`}, filter: &[2]string{"second", "end"}, msg: "pair $first+$second", at: "first"},
-	{pats: []string{`^//\s*(?P<all>.+)$`}, filter: &[2]string{"all", "whole line"}, msg: "line:$all"},
+	{pats: []string{`(?P<first>\w+) (?P<second>\w+)$`}, filter: eq("second", "end"), msg: "pair $first+$second", at: "first"},
+	{pats: []string{`^//\s*(?P<all>.+)$`}, filter: eq("all", "whole line"), msg: "line:$all"},
+	// the short spelling of a named group (Go >= 1.22), alone, mixed with the long one, nested, optional, behind an
+	// unnamed group, in alternatives
+	{pats: []string{`(?<who>\w+) owes (?<amt>\d+)`}, filter: ne("who", "nobody"), msg: "debt $who:$amt [$$]", sugg: "$amt/$who"},
+	{pats: []string{`(?P<k>\w+):=(?<val2>\w+)`}, filter: nevar("k", "val2"), msg: "assign $k to $val2", at: "val2", sugg: "$k"},
+	{pats: []string{`(?<outer>\[(?<inner>\w+)\])`}, filter: matches("inner", `^[a-z]+$`), msg: "br $outer/$inner"},
+	{pats: []string{`q(?<qopt>r)?s`}, msg: "q[$qopt]", sugg: "$qopt"},
+	{pats: []string{`(\w+)@(?<host>\w+)`}, filter: or(matches("host", `^h`), eq("host", "there")), msg: "at $host", at: "host"},
+	{pats: []string{`(?<s1>one)|(?P<s2>two)|(three)`}, filter: and(eq("s1", ""), matches("$$", `^t`)), msg: "s1=[$s1] s2=[$s2] $$"},
+	{pats: []string{`say (?<said>\w*)!`}, filter: not(eq("said", "")), msg: "said $said", sugg: "$said"},
+	// a fixed family on the comments `fam0:t1-t2-t3` (all token combinations are generated): every rule matches, binds v
+	// (and w) to a different token, and the earlier ones reject unless their token is the right one
+	{pats: []string{`fam0:(?P<v>` + tok + `)`}, filter: eq("v", "a"), msg: "fam0#0 v=[$v] w=[$w]"},
+	{pats: []string{`fam0:` + tok + `-(?<v>` + tok + `)`}, filter: eq("v", "bb"), msg: "fam0#1 v=[$v] w=[$w] $$", at: "v", sugg: "$v"},
+	{pats: []string{`fam0:(?P<w>` + tok + `)-` + tok + `-(?P<v>` + tok + `)`}, filter: eqvar("v", "w"), msg: "fam0#2 v=[$v] w=[$w]", sugg: "$w$v"},
+	{pats: []string{`fam0:` + tok + `-` + tok}, filter: matches("$$", `zz$`), msg: "fam0#3 v=[$v] w=[$w]", sugg: "<$v>"},
+	{pats: []string{`fam0:(` + tok + `)-(?<w>é)?`}, filter: ne("w", ""), msg: "fam0#4 v=[$v] w=[$w]", at: "w"},
+	{pats: []string{`fam0:(?<v>zz)?`}, msg: "fam0#5 v=[$v] w=[$w]", at: "v", sugg: "<$v>"},
 }
 
-var randomPieces = []string{`(?P<p>\w+)`, `(\d+)`, `(?P<q>[a-z]*)`, `-`, `\s*`, `(?P<r>x)?`, `=`, `(?:ab)+`, `.`, `(?P<s>ø+)`, `!`}
+var randomPieces = []string{`(?P<p>\w+)`, `(\d+)`, `(?P<q>[a-z]*)`, `-`, `\s*`, `(?P<r>x)?`, `=`, `(?:ab)+`, `.`, `(?P<s>ø+)`, `!`,
+	`(?<t>\w+)`, `(?<u>z)?`, `(?<p>\d+)`, `(?<q>[a-z]+)`}
+
+var pieceName = regexp.MustCompile(`^\(\?P?<(\w+)>`)
+
+// named writes a named group in one of the two spellings Go accepts.
+func named(rng *rand.Rand, name, body string) string {
+	if rng.Intn(2) == 0 {
+		return "(?P<" + name + ">" + body + ")"
+	}
+	return "(?<" + name + ">" + body + ")"
+}
+
+// family: rules that all match the comments `<fam>:t1-t2-t3`, bind the same names (v, w) to different tokens and
+// mostly reject through their filters, so that several matched-but-rejected rules precede the one that reports.
+func family(rng *rand.Rand, fam string, toks []string) []ruleDef {
+	var out []ruleDef
+	n := 4 + rng.Intn(3)
+	for i := 0; i < n; i++ {
+		var d ruleDef
+		hasV, hasW := true, false
+		switch k := rng.Intn(7); {
+		case i == n-1 || k == 0: // the last rule of a family: a group v that rarely participates, no filter
+			d.pats = []string{fam + ":" + named(rng, "v", "zz") + "?"}
+		case k == 1:
+			d.pats = []string{fam + ":" + named(rng, "v", tok)}
+		case k == 2:
+			d.pats = []string{fam + ":" + tok + "-" + named(rng, "v", tok)}
+		case k == 3:
+			d.pats = []string{fam + ":" + named(rng, "w", tok) + "-" + tok + "-" + named(rng, "v", tok)}
+			hasW = true
+		case k == 4:
+			d.pats = []string{fam + ":(" + tok + ")-" + named(rng, "v", tok) + "-" + named(rng, "w", tok)}
+			hasW = true
+		case k == 5: // no group at all: `$v` is a text of the template
+			d.pats = []string{fam + ":" + tok}
+			d.filter = matches("$$", toks[rng.Intn(len(toks))]+"$")
+			hasV = false
+		default:
+			d.pats = []string{fam + ":" + named(rng, "w", tok) + "-" + named(rng, "v", "q") + "?"}
+			hasW = true
+		}
+		t := toks[rng.Intn(len(toks))]
+		t2 := toks[rng.Intn(len(toks))]
+		if i < n-1 && hasV {
+			// the earlier rules of a family reject most comments (so that several matched-but-rejected rules precede the
+			// reporting one); the last but one may accept most
+			k := rng.Intn(6)
+			if i == n-2 {
+				k = rng.Intn(9)
+			}
+			switch k {
+			case 0:
+				d.filter = eq("v", t)
+			case 1:
+				d.filter = matches("v", "^"+t+"$")
+			case 2:
+				if hasW {
+					d.filter = eqvar("v", "w")
+				} else {
+					d.filter = eq("v", "")
+				}
+			case 3:
+				d.filter = and(ne("v", ""), matches("$$", t+"$"))
+			case 4:
+				if hasW {
+					d.filter = or(eq("w", t), eq("v", t2))
+				} else {
+					d.filter = or(eq("v", t), eq("v", t2))
+				}
+			case 5:
+				d.filter = and(not(eq("v", t)), matches("v", "^["+t2+"a]"))
+			case 6:
+				d.filter = ne("v", t)
+			case 7:
+				d.filter = not(matches("v", t))
+			default:
+				if hasW {
+					d.filter = nevar("v", "w")
+				} else {
+					d.filter = ne("v", "")
+				}
+			}
+		}
+		d.msg = fmt.Sprintf("%s#%d v=[$v] w=[$w] $$", fam, i)
+		if hasV && rng.Intn(3) == 0 {
+			d.at = "v"
+		}
+		switch rng.Intn(4) {
+		case 0:
+			d.sugg = "<$v|$w>"
+		case 1:
+			d.sugg = "$v"
+		}
+		out = append(out, d)
+	}
+	return out
+}
+
+type target struct {
+	path string
+	src  []byte
+	file *ast.File
+	pkg  *types.Package
+	info *types.Info
+}
+
+type cm struct {
+	file int
+	off  int
+	src  string
+}
 
 func main() {
 	seed := flag.Int64("seed", 1, "PRNG seed")
@@ -163,7 +388,18 @@ func main() {
 	enc := json.NewEncoder(os.Stdout)
 	enc.SetEscapeHTML(false)
 
+	toks := []string{"a", "bb", "é", "zz", "q"}
+	fams := []string{"fam1", "fam2"}
 	defs := append([]ruleDef{}, fixedRules...)
+	// family rules keep their relative order but are spread over the rule list
+	for _, fam := range fams {
+		at := 0
+		for _, d := range family(rng, fam, toks) {
+			at += rng.Intn(len(defs) - at + 1)
+			defs = append(defs[:at], append([]ruleDef{d}, defs[at:]...)...)
+			at++
+		}
+	}
 	for i := 0; i < *nrand; i++ {
 		var sb strings.Builder
 		used := map[string]bool{}
@@ -171,13 +407,12 @@ func main() {
 		var names []string
 		for j := 0; j < n; j++ {
 			p := randomPieces[rng.Intn(len(randomPieces))]
-			if strings.HasPrefix(p, "(?P<") {
-				nm := p[4:5]
-				if used[nm] {
+			if m := pieceName.FindStringSubmatch(p); m != nil {
+				if used[m[1]] {
 					continue
 				}
-				used[nm] = true
-				names = append(names, nm)
+				used[m[1]] = true
+				names = append(names, m[1])
 			}
 			sb.WriteString(p)
 		}
@@ -191,8 +426,23 @@ func main() {
 		if rng.Intn(2) == 0 {
 			d.sugg = "S$$"
 		}
+		if len(names) > 0 && rng.Intn(3) == 0 {
+			d.filter = ne(names[rng.Intn(len(names))], []string{"", "x", "foo", "1"}[rng.Intn(4)])
+		}
 		if _, err := regexp.Compile(d.pats[0]); err != nil || d.pats[0] == "" || regexp.MustCompile(d.pats[0]).MatchString("") {
 			continue // a pattern matching the empty string would fire on every comment first
+		}
+		if re := regexp.MustCompile(d.pats[0]); func() bool {
+			for _, a := range toks {
+				for _, b := range toks {
+					if re.MatchString("// see fam0:" + a + "-" + b + "-" + a + " */") {
+						return true
+					}
+				}
+			}
+			return false
+		}() {
+			continue // a random rule that fires on the family comments would starve the family rules
 		}
 		// random rules go in front of / between the fixed ones
 		k := rng.Intn(len(defs) + 1)
@@ -221,7 +471,7 @@ func main() {
 		}
 		w("\t)")
 		if d.filter != nil {
-			w(fmt.Sprintf(".\n\t\tWhere(m[%q].Text == %q)", d.filter[0], d.filter[1]))
+			w(".\n\t\tWhere(" + d.filter.dsl() + ")")
 		}
 		if d.at != "" {
 			w(fmt.Sprintf(".\n\t\tAt(m[%q])", d.at))
@@ -233,28 +483,65 @@ func main() {
 		w("\n}\n\n")
 		for k, p := range d.pats {
 			re := regexp.MustCompile(p)
-			rules = append(rules, ruleSpec{Pat: p, Names: re.SubexpNames(), Groups: ruleguard.VerifRegexpHasCaptureGroups(p), Filter: d.filter,
-				Msg: d.msg, Sugg: d.sugg, At: d.at, Line: altLines[k], Group: group, re: re})
+			rules = append(rules, ruleSpec{Pat: p, Names: re.SubexpNames(), Groups: ruleguard.VerifRegexpHasCaptureGroups(p), NumSub: re.NumSubexp(),
+				Filter: d.filter, Msg: d.msg, Sugg: d.sugg, At: d.at, Line: altLines[k], Group: group, re: re})
 		}
 	}
 
-	// ---- target file with comments at known offsets
-	type cm struct {
-		off int
-		src string
-	}
-	var tb strings.Builder
+	// ---- target files with comments at known offsets
+	var tbs [3]strings.Builder
 	var comments []cm
+	cur := 0
 	addc := func(prefix, c, suffix string) {
+		tb := &tbs[cur]
 		tb.WriteString(prefix)
-		comments = append(comments, cm{off: tb.Len(), src: c})
+		comments = append(comments, cm{file: cur, off: tb.Len(), src: c})
 		tb.WriteString(c)
 		tb.WriteString(suffix)
 	}
-	tb.WriteString("package target\n\n")
+	frags := []string{"foo", "bar", "FIXME", "k=v", "mode=x", "12-3", "xyz", "xz", "aab", "c", "ø", "øl", " ", "TODO(x): y", "beta w", "alt1-1", "end", "the", "=",
+		"é", "ab", "!", "x-", "1", "bob owes 12", "nobody owes 3", "k:=v", "x:=x", "[tag]", "[T9]", "qs", "qrs", "me@host", "you@there", "it@work", "one", "two", "three",
+		"say hi!", "say !", "z"}
+	randomComment := func() {
+		var sb strings.Builder
+		n := 1 + rng.Intn(5)
+		for j := 0; j < n; j++ {
+			sb.WriteString(frags[rng.Intn(len(frags))])
+			if rng.Intn(3) == 0 {
+				sb.WriteByte(' ')
+			}
+		}
+		body := sb.String()
+		switch rng.Intn(4) {
+		case 0:
+			addc("\t", "/* "+body+" */", "\n")
+		case 1:
+			addc("\t", "/*"+strings.ReplaceAll(body, " ", "\n")+"*/", "\n")
+		case 2:
+			addc("\t_ = \"ü\" ", "//"+body, "\n")
+		default:
+			addc("\t", "// "+body, "\n")
+		}
+	}
+	familyComment := func() {
+		fam := fams[rng.Intn(len(fams))]
+		body := fam + ":" + toks[rng.Intn(len(toks))] + "-" + toks[rng.Intn(len(toks))] + "-" + toks[rng.Intn(len(toks))]
+		switch rng.Intn(3) {
+		case 0:
+			addc("\t", "/* "+body+" */", "\n")
+		case 1:
+			addc("\t_ = \"日本\" ", "// see "+body, "\n")
+		default:
+			addc("\t", "//"+body, "\n")
+		}
+	}
+
+	// file 0
+	cur = 0
+	tbs[0].WriteString("package target\n\n")
 	addc("", "// TODO(bob): fix this", "\n")
 	addc("", "// whole line", "\n")
-	tb.WriteString("func f() {\n")
+	tbs[0].WriteString("func f() {\n")
 	addc("\tx := 1 ", "// TODO(alice):   second   ", "\n")
 	addc("\t", "/* mode=fast */", "\n")
 	addc("\t", "// speed=3", "\n")
@@ -276,144 +563,307 @@ func main() {
 	addc("\t", "// ø", "\n")
 	addc("\t", "//", "\n")
 	addc("\t", "/**/", "\n")
+	addc("\t", "// alice owes 250 to bob", "\n")
+	addc("\t", "// nobody owes 1, ann owes 2", "\n")
+	addc("\t", "/* left:=right same:=same */", "\n")
+	addc("\t", "// [tag] and [T9]", "\n")
+	addc("\t", "// qs then qrs", "\n")
+	addc("\t", "// qrs", "\n")
+	addc("\t", "// me@host you@there it@work", "\n")
+	addc("\t", "// it@work", "\n")
+	addc("\t", "// three two one", "\n")
+	addc("\t", "// one", "\n")
+	addc("\t", "// say ! then say hi!", "\n")
 	// CRLF: go/scanner strips \r from the comment text
 	addc("\t", "/* ab\r\ncd FIXME */", "\n")
 	addc("\t", "/* k=1\r\n mode=crlf\r\n*/", "\n")
 	addc("\t", "// FIXME crlf line", "\r\n")
 	addc("\t", "/* foo\r*/", "\n")
-	frags := []string{"foo", "bar", "FIXME", "k=v", "mode=x", "12-3", "xyz", "xz", "aab", "c", "ø", "øl", " ", "TODO(x): y", "beta w", "alt1-1", "end", "the", "=", "é", "ab", "!", "x-", "1"}
 	for i := 0; i < *ncomments; i++ {
-		var sb strings.Builder
-		n := 1 + rng.Intn(5)
-		for j := 0; j < n; j++ {
-			sb.WriteString(frags[rng.Intn(len(frags))])
-			if rng.Intn(3) == 0 {
-				sb.WriteByte(' ')
+		if i%6 == 5 {
+			familyComment()
+		} else {
+			randomComment()
+		}
+	}
+	tbs[0].WriteString("}\n\n")
+	addc("", "// FIXME at eof", "") // no trailing newline
+
+	// file 1: multi-byte text in front of every comment; mostly family comments
+	cur = 1
+	tbs[1].WriteString("package target\n\nvar greeting = \"日本語 ü ø\" ")
+	addc("", "// fam1:a-bb-é", "\n")
+	tbs[1].WriteString("\nfunc g() {\n")
+	for i := 0; i < *ncomments/4+8; i++ {
+		if i%3 == 2 {
+			randomComment()
+		} else {
+			familyComment()
+		}
+	}
+	addc("\t", "/* fam2:zz-q-a\n fam1:q-zz-bb */", "\n")
+	f0 := []string{"a", "bb", "é", "zz"}
+	for i, a := range f0 {
+		for j, b := range f0 {
+			for k, c := range f0 {
+				body := "fam0:" + a + "-" + b + "-" + c
+				switch (i + j + k) % 3 {
+				case 0:
+					addc("\t", "// "+body, "\n")
+				case 1:
+					addc("\t_ = \"日本\" ", "/*"+body+"*/", "\n")
+				default:
+					addc("\t", "//"+body+" tail", "\n")
+				}
 			}
 		}
-		body := sb.String()
-		switch rng.Intn(4) {
-		case 0:
-			addc("\t", "/* "+body+" */", "\n")
-		case 1:
-			addc("\t", "/*"+strings.ReplaceAll(body, " ", "\n")+"*/", "\n")
-		case 2:
-			addc("\t_ = \"ü\" ", "//"+body, "\n")
-		default:
-			addc("\t", "// "+body, "\n")
+	}
+	tbs[1].WriteString("}\n")
+
+	// file 2: short, its last comment ends the file
+	cur = 2
+	tbs[2].WriteString("package target\n\n")
+	addc("", "//fam2:é-é-é", "\n")
+	tbs[2].WriteString("func h() {\n")
+	for i := 0; i < 6; i++ {
+		if i%2 == 0 {
+			familyComment()
+		} else {
+			randomComment()
 		}
 	}
-	tb.WriteString("}\n\n")
-	addc("", "// FIXME at eof", "") // no trailing newline
-	src := []byte(tb.String())
+	tbs[2].WriteString("}\n")
+	addc("", "/* fam1:bb-a-zz */", "")
 
-	t, err := hutil.CheckTarget(*tmp, "c12/target.go", src)
-	if err != nil {
-		fmt.Fprintln(os.Stderr, "target:", err)
-		os.Exit(3)
+	fset := token.NewFileSet()
+	var targets []*target
+	for i := range tbs {
+		src := []byte(tbs[i].String())
+		path := filepath.Join(*tmp, fmt.Sprintf("c12/f%d/target.go", i))
+		if err := os.MkdirAll(filepath.Dir(path), 0o755); err != nil {
+			fmt.Fprintln(os.Stderr, "target:", err)
+			os.Exit(3)
+		}
+		if err := os.WriteFile(path, src, 0o644); err != nil {
+			fmt.Fprintln(os.Stderr, "target:", err)
+			os.Exit(3)
+		}
+		f, err := parser.ParseFile(fset, path, src, parser.ParseComments)
+		if err != nil {
+			fmt.Fprintln(os.Stderr, "target:", err)
+			os.Exit(3)
+		}
+		info := hutil.NewInfo()
+		conf := types.Config{Importer: importer.ForCompiler(fset, "source", nil), Error: func(error) {}}
+		pkg, err := conf.Check("target", fset, []*ast.File{f}, info)
+		if err != nil {
+			fmt.Fprintln(os.Stderr, "target:", err)
+			os.Exit(3)
+		}
+		targets = append(targets, &target{path: path, src: src, file: f, pkg: pkg, info: info})
 	}
-	e, err := hutil.LoadEngine(t.Fset, map[string]string{"rules.go": rb.String()}, []string{"rules.go"})
+	e, err := hutil.LoadEngine(fset, map[string]string{"rules.go": rb.String()}, []string{"rules.go"})
 	if err != nil {
 		fmt.Fprintln(os.Stderr, "load:", err)
 		fmt.Fprintln(os.Stderr, rb.String())
 		os.Exit(3)
 	}
-	// comment texts as the parser delivers them, by offset
-	texts := map[int]string{}
+	// comment texts as the parser delivers them, by (file, offset)
+	type key struct{ file, off int }
+	texts := map[key]string{}
 	ncom := 0
-	for _, cg := range t.File.Comments {
-		for _, c := range cg.List {
-			texts[t.Fset.Position(c.Pos()).Offset] = c.Text
-			ncom++
+	for fi, t := range targets {
+		for _, cg := range t.file.Comments {
+			for _, c := range cg.List {
+				texts[key{fi, fset.Position(c.Pos()).Offset}] = c.Text
+				ncom++
+			}
 		}
 	}
-	var _ ast.Node
 	enc.Encode(map[string]interface{}{"k": "rules", "rules": rules})
-	enc.Encode(map[string]interface{}{"k": "file", "src": src, "srcn": len(src), "parser_comments": ncom, "built_comments": len(comments)})
+	var srcs [][]byte
+	var bases []int
+	for _, t := range targets {
+		srcs = append(srcs, t.src)
+		bases = append(bases, fset.File(t.file.Pos()).Base())
+	}
+	enc.Encode(map[string]interface{}{"k": "file", "srcs": srcs, "bases": bases, "parser_comments": ncom, "built_comments": len(comments)})
 
+	type frep struct {
+		hutil.Report
+		file string
+	}
+	state := ruleguard.NewRunnerState(e) // one runner state for all files, as the analyzer's pool hands out
 	for _, L := range []int{0, 15} {
-		reports, pmsg := hutil.Run(e, t, L, "", nil)
-		if pmsg != "" {
-			enc.Encode(commentObs{K: "comment", L: L, Panic: pmsg})
-			continue
-		}
-		for ci, c := range comments {
-			o := commentObs{K: "comment", L: L, Off: c.off, Src: []byte(c.src), HasCR: strings.Contains(c.src, "\r")}
-			text, ok := texts[c.off]
-			if !ok {
-				o.Panic = "the parser has no comment at this offset"
-				enc.Encode(o)
+		for fi, t := range targets {
+			var reports []frep
+			pmsg := func() (pmsg string) {
+				defer func() {
+					if r := recover(); r != nil {
+						pmsg = fmt.Sprint(r)
+					}
+				}()
+				ctx := &ruleguard.RunContext{
+					Pkg: t.pkg, Types: t.info, Sizes: types.SizesFor("gc", "amd64"), Fset: fset, TruncateLen: L, State: state,
+					Report: func(data *ruleguard.ReportData) {
+						r := frep{Report: hutil.Report{Message: data.Message, Line: data.RuleInfo.Line}}
+						if data.RuleInfo.Group != nil {
+							r.Group = data.RuleInfo.Group.Name
+						}
+						if data.Node == nil {
+							r.NilNode = true
+						} else {
+							p := fset.Position(data.Node.Pos())
+							r.file = p.Filename
+							r.Pos = p.Offset
+							r.End = fset.Position(data.Node.End()).Offset
+						}
+						if data.Suggestion != nil {
+							r.HasSugg = true
+							r.SuggFrom = fset.Position(data.Suggestion.From).Offset
+							r.SuggTo = fset.Position(data.Suggestion.To).Offset
+							r.Sugg = string(data.Suggestion.Replacement)
+						}
+						reports = append(reports, r)
+					},
+				}
+				if err := e.Run(ctx, t.file); err != nil {
+					return "run error: " + err.Error()
+				}
+				return ""
+			}()
+			if pmsg != "" {
+				enc.Encode(commentObs{K: "comment", L: L, File: fi, Panic: pmsg})
 				continue
 			}
-			o.Text = []byte(text)
-			for _, r := range rules {
-				o.Idx = append(o.Idx, r.re.FindStringSubmatchIndex(text))
-				o.IdxSrc = append(o.IdxSrc, r.re.FindSubmatchIndex([]byte(c.src)))
-			}
-			// observed: reports whose node starts inside the comment's source span
-			for _, r := range reports {
-				// a report belongs to the comment that contains its start; a zero-width node sitting exactly at the end of
-				// the comment (an empty group selected by At()) belongs to it too, unless the next comment starts right there
-				// and the node is not zero-width
-				inside := r.Pos >= c.off && r.Pos < c.off+len(c.src)
-				atEnd := r.Pos == c.off+len(c.src) && r.End == r.Pos
-				if inside && r.End == r.Pos && r.Pos == c.off && ci > 0 && comments[ci-1].off+len(comments[ci-1].src) == c.off {
-					inside = false // zero-width at the seam of two adjacent comments: attributed to the earlier one
-				}
-				if inside || atEnd {
-					o.Obs = append(o.Obs, report{Pos: r.Pos, End: r.End, Msg: []byte(r.Message), HasSugg: r.HasSugg, SuggFrom: r.SuggFrom,
-						SuggTo: r.SuggTo, Sugg: []byte(r.Sugg), Line: r.Line, Group: r.Group})
-				}
-			}
-			// expected, from the SOURCE bytes of the comment: first rule (load order) that matches and accepts
-			for ri, r := range rules {
-				idx := o.IdxSrc[ri]
-				if idx == nil {
+			claimed := make([]bool, len(reports))
+			for ci, c := range comments {
+				if c.file != fi {
 					continue
 				}
-				var caps []capText
-				pos := map[string][2]int{}
-				for i, name := range r.Names {
-					if i == 0 || name == "" {
-						continue
-					}
-					b, en := idx[2*i], idx[2*i+1]
-					if b < 0 || en < 0 {
-						caps = append(caps, capText{name, nil})
-						pos[name] = [2]int{c.off, c.off}
-						continue
-					}
-					caps = append(caps, capText{name, []byte(c.src[b:en])})
-					pos[name] = [2]int{c.off + b, c.off + en}
+				o := commentObs{K: "comment", L: L, File: fi, Off: c.off, Src: []byte(c.src), HasCR: strings.Contains(c.src, "\r")}
+				text, ok := texts[key{fi, c.off}]
+				if !ok {
+					o.Panic = "the parser has no comment at this offset"
+					enc.Encode(o)
+					continue
 				}
-				if r.Filter != nil {
-					okf := false
-					for _, cp := range caps {
-						if cp.name == r.Filter[0] {
-							okf = string(cp.text) == r.Filter[1]
-							break
+				o.Text = []byte(text)
+				seenMT := map[string]bool{}
+				addMT := func(pat string, t []byte) {
+					k := pat + "\x00" + string(t)
+					if !seenMT[k] {
+						seenMT[k] = true
+						o.MT = append(o.MT, matchVerdict{Pat: []byte(pat), Text: append([]byte{}, t...), Ok: regexp.MustCompile(pat).Match(t)})
+					}
+				}
+				for _, r := range rules {
+					ix := r.re.FindStringSubmatchIndex(text)
+					o.Idx = append(o.Idx, ix)
+					o.IdxSrc = append(o.IdxSrc, r.re.FindSubmatchIndex([]byte(c.src)))
+					// verdicts a Text.Matches leaf may ask for: the text the model reads for the variable is the file bytes at
+					// offset-of-comment + index-in-Text (which differs from Text[b:e] only when the scanner stripped a \r)
+					var mn [][2]string
+					r.Filter.matchesNodes(&mn)
+					if ix == nil {
+						continue
+					}
+					for _, vp := range mn {
+						addMT(vp[1], nil)
+						gi := 0
+						if vp[0] != "$$" {
+							gi = r.re.SubexpIndex(vp[0])
+						}
+						if gi < 0 || ix[2*gi] < 0 {
+							continue
+						}
+						b, en := ix[2*gi], ix[2*gi+1]
+						addMT(vp[1], []byte(text[b:en]))
+						if c.off+en <= len(t.src) {
+							addMT(vp[1], t.src[c.off+b:c.off+en])
 						}
 					}
-					if !okf {
+				}
+				// observed: reports whose node starts inside the comment's source span
+				for ri, r := range reports {
+					if r.file != t.path || r.NilNode {
 						continue
 					}
+					// a report belongs to the comment that contains its start; a zero-width node sitting exactly at the end of
+					// the comment (an empty group selected by At()) belongs to it too, unless the next comment starts right there
+					// and the node is not zero-width
+					inside := r.Pos >= c.off && r.Pos < c.off+len(c.src)
+					atEnd := r.Pos == c.off+len(c.src) && r.End == r.Pos
+					if inside && r.End == r.Pos && r.Pos == c.off && ci > 0 && comments[ci-1].file == fi && comments[ci-1].off+len(comments[ci-1].src) == c.off {
+						inside = false // zero-width at the seam of two adjacent comments: attributed to the earlier one
+					}
+					if (inside || atEnd) && !claimed[ri] {
+						claimed[ri] = true
+						o.Obs = append(o.Obs, report{Pos: r.Pos, End: r.End, Msg: []byte(r.Message), HasSugg: r.HasSugg, SuggFrom: r.SuggFrom,
+							SuggTo: r.SuggTo, Sugg: []byte(r.Sugg), Line: r.Line, Group: r.Group})
+					}
 				}
-				whole := []byte(c.src[idx[0]:idx[1]])
-				wnt := report{Pos: c.off + idx[0], End: c.off + idx[1], Line: r.Line, Group: r.Group, Rule: ri}
-				if r.At != "" {
-					p := pos[r.At]
-					wnt.Pos, wnt.End = p[0], p[1]
+				// expected, from the SOURCE bytes of the comment: first rule (load order) that matches and accepts
+				for ri, r := range rules {
+					idx := o.IdxSrc[ri]
+					if idx == nil {
+						continue
+					}
+					var caps []capText
+					pos := map[string][2]int{}
+					for i, name := range r.Names {
+						if i == 0 || name == "" {
+							continue
+						}
+						b, en := idx[2*i], idx[2*i+1]
+						if b < 0 || en < 0 {
+							caps = append(caps, capText{name, nil})
+							pos[name] = [2]int{c.off, c.off}
+							continue
+						}
+						caps = append(caps, capText{name, []byte(c.src[b:en])})
+						pos[name] = [2]int{c.off + b, c.off + en}
+					}
+					whole := []byte(c.src[idx[0]:idx[1]])
+					if r.Filter != nil {
+						okf := r.Filter.eval(func(name string) []byte {
+							if name == "$$" {
+								return whole
+							}
+							for _, cp := range caps {
+								if cp.name == name {
+									return cp.text
+								}
+							}
+							return nil
+						})
+						if !okf {
+							continue
+						}
+					}
+					wnt := report{Pos: c.off + idx[0], End: c.off + idx[1], Line: r.Line, Group: r.Group, Rule: ri}
+					if r.At != "" {
+						p := pos[r.At]
+						wnt.Pos, wnt.End = p[0], p[1]
+					}
+					wnt.Msg = interpSpec(r.Msg, caps, whole, true, L)
+					if r.Sugg != "" {
+						wnt.Sugg = interpSpec(r.Sugg, caps, whole, false, L)
+						wnt.HasSugg = true
+						wnt.SuggFrom, wnt.SuggTo = wnt.Pos, wnt.End
+					}
+					o.Want = &wnt
+					break
 				}
-				wnt.Msg = interpSpec(r.Msg, caps, whole, true, L)
-				if r.Sugg != "" {
-					wnt.Sugg = interpSpec(r.Sugg, caps, whole, false, L)
-					wnt.HasSugg = true
-					wnt.SuggFrom, wnt.SuggTo = wnt.Pos, wnt.End
-				}
-				o.Want = &wnt
-				break
+				enc.Encode(o)
 			}
-			enc.Encode(o)
+			// every report of a comment rule must sit in a comment of the file that was analysed
+			for ri, r := range reports {
+				if !claimed[ri] {
+					enc.Encode(map[string]interface{}{"k": "stray", "L": L, "file": fi, "analysed": t.path, "node_file": r.file, "nil_node": r.NilNode,
+						"pos": r.Pos, "end": r.End, "msg": []byte(r.Message), "group": r.Group, "line": r.Line})
+				}
+			}
 		}
 	}
 }
